@@ -140,6 +140,11 @@ REJECTED = {
 }
 
 
+from .pool_extra import POOL_EXTRA, VERSION_SENSITIVE_EXTRA  # noqa: E402
+POOL.update(POOL_EXTRA)
+VERSION_SENSITIVE.update(VERSION_SENSITIVE_EXTRA)
+
+
 def repo_scripts():
     d = os.path.join(env.REPO, "oneliner_tests", "test_cases")
     out = {}
